@@ -132,7 +132,11 @@ def _same(a, b, rel=1e-9):
 
 
 def _has_nan(x):
-    return any(isinstance(v, float) and math.isnan(v) for v in N._flatten(x))  # pylint: disable=protected-access
+    def bad(v):
+        if isinstance(v, complex):
+            return not (math.isfinite(v.real) and math.isfinite(v.imag))
+        return isinstance(v, float) and math.isnan(v)
+    return any(bad(v) for v in N._flatten(x))  # pylint: disable=protected-access
 
 
 def real_outcome(item, kwargs):
@@ -243,6 +247,23 @@ def judge(item, ex, specs, kwargs, env, pick_branch):
         rec["why"] = "real function returned an undefined value"
         return rec
     rec["status"] = "ok" if _same(got, want) else "mismatch"
+    if rec["status"] == "mismatch":
+        # conditioning: the real function evaluates in floating point.  A discrepancy below 10x the closed form's own
+        # response to a 1e-12 relative change of the arguments is round-off (cos of 1e7 rad, cancellations); for the
+        # float-precision classes (two_point_function / solve after substitution, known findings) up to 1e-4 relative
+        try:
+            fa, fb = N._flatten(got), N._flatten(want)  # pylint: disable=protected-access
+            disc = max(abs(complex(x) - complex(y)) for x, y in zip(fa, fb))
+            scale = max([abs(complex(x)) for x in fa + fb] + [1e-300])
+            env2 = {k: sympy.sympify(v) * (1 + sympy.Rational(1, 10**12)) for k, v in env.items()}
+            _k, want2, _b = expected_outcome(ex, env2, lambda _e, _v: bi)
+            delta = max(abs(complex(x) - complex(y)) for x, y in zip(N._flatten(want2), fb))  # pylint: disable=protected-access
+            if disc <= 10 * delta or (getattr(ex, "precision_class", False) and disc <= 1e-4 * scale):
+                rec["status"] = "skipped"
+                rec["why"] = f"ill-conditioned / float-precision point (discrepancy {disc:.3g}, response to 1e-12: {delta:.3g})"
+                return rec
+        except Exception:  # pylint: disable=broad-except
+            pass
     # the law itself at this tuple
     b = ex.branches[bi]
     lawv = None
